@@ -112,6 +112,13 @@ Proof.
     + unfold in_docs. destruct (after c_hash dest); [destruct (find_doc _ _)|]; reflexivity.
 Qed.
 
+(* the three scheme tests are mutually exclusive, so their order in the source is immaterial *)
+Lemma opt_str_eqb_excl o a b : a <> b -> opt_str_eqb o a = true -> opt_str_eqb o b = false.
+Proof.
+  intros Hab H. destruct o as [x|]; [|reflexivity]. cbn [opt_str_eqb] in *.
+  apply str_eqb_eq in H. subst. apply str_eqb_neq. exact Hab.
+Qed.
+
 Theorem render_link_src_eq P d l : render_link_src P d l = render_link P d l.
 Proof.
   unfold render_link_src, render_link. cbv zeta. unfold cfg_off, no_attrs. cbn [orb andb].
@@ -119,9 +126,15 @@ Proof.
   change s_hash with [35]. destruct (startswith (l_dest l) [35]); [reflexivity|].
   destruct (match scheme_of (l_dest l) with Some s => mem_str s (p_url_schemes P) | None => false end); [reflexivity|].
   change s_inv with [105; 110; 118]. change s_path with [112; 97; 116; 104]. change s_project with [112; 114; 111; 106; 101; 99; 116].
-  destruct (opt_str_eqb _ [105; 110; 118]); [reflexivity|].
-  destruct (opt_str_eqb _ [112; 97; 116; 104]); [apply render_link_path_src_eq|].
-  destruct (opt_str_eqb _ [112; 114; 111; 106; 101; 99; 116]); [apply render_link_project_src_eq|].
+  destruct (opt_str_eqb (scheme_of (l_dest l)) [105; 110; 118]) eqn:Ei;
+    destruct (opt_str_eqb (scheme_of (l_dest l)) [112; 97; 116; 104]) eqn:Ea;
+    destruct (opt_str_eqb (scheme_of (l_dest l)) [112; 114; 111; 106; 101; 99; 116]) eqn:Ep;
+    try reflexivity;
+    try (apply render_link_path_src_eq); try (apply render_link_project_src_eq);
+    try (exfalso; first
+      [ rewrite (opt_str_eqb_excl _ [105; 110; 118] [112; 97; 116; 104]) in Ea by (discriminate || assumption); discriminate
+      | rewrite (opt_str_eqb_excl _ [105; 110; 118] [112; 114; 111; 106; 101; 99; 116]) in Ep by (discriminate || assumption); discriminate
+      | rewrite (opt_str_eqb_excl _ [112; 97; 116; 104] [112; 114; 111; 106; 101; 99; 116]) in Ep by (discriminate || assumption); discriminate ]).
   destruct (l_auto l); [reflexivity|apply render_link_unknown_src_eq].
 Qed.
 
